@@ -17,6 +17,7 @@ package main
 
 import (
 	"bytes"
+	"errors"
 	"flag"
 	"fmt"
 	"math/rand"
@@ -538,6 +539,12 @@ func (p *hpeer) RequestAccessLists(id uint64, hashes []common.Hash, bytes int) e
 	return nil
 }
 
+// isCancel: the errors Sync returns when the cancel channel is closed (snap/2 returns the trie
+// generator's own error when cancelled during trie generation).
+func isCancel(err error) bool {
+	return errors.Is(err, snap.ErrCancelled) || errors.Is(err, triedb.ErrCancelled)
+}
+
 // ---------------------------------------------------------------- final comparison
 
 func dbConfig(scheme string) *triedb.Config {
@@ -757,7 +764,7 @@ func oneRun(x *run, version int, scheme string, seed int64, restarts int) {
 		if err == nil {
 			break
 		}
-		if err != snap.ErrCancelled {
+		if !isCancel(err) {
 			x.mu.Lock()
 			x.violate(fmt.Sprintf("snap sync failed although a peer able to make progress is present: %v", err), tl.M{})
 			x.mu.Unlock()
